@@ -44,6 +44,53 @@ var run *common.Run
 
 // ociAutoSave: the documented AutoSaveIndex option of the OCI store, chosen per history from its seed
 var ociAutoSave = true
+
+// storeDir: the directory of the store newStore created last (histories run one after another)
+var storeDir string
+
+// diskTok lists what is on disk after a history, in the model's terms: file store -- every regular
+// file below the working directory as <path id>=<hash id>,<length>; OCI store -- every blob file as
+// <digest id>=<hash id>,<length> (anything under ingest/ is a left-over temp file: id 0).
+func (u *universe) diskTok(kind string) string {
+	var l []string
+	root := storeDir
+	if kind == "oci" {
+		root = filepath.Join(storeDir, "blobs")
+		if ents, err := os.ReadDir(filepath.Join(storeDir, "ingest")); err == nil {
+			for range ents {
+				l = append(l, "0=0,0")
+			}
+		}
+	}
+	filepath.WalkDir(root, func(p string, de os.DirEntry, err error) error {
+		if err != nil || !de.Type().IsRegular() {
+			return nil
+		}
+		b, rerr := os.ReadFile(p)
+		if rerr != nil {
+			l = append(l, "0=0,0")
+			return nil
+		}
+		rel, _ := filepath.Rel(root, p)
+		id := 0
+		if kind == "oci" {
+			if dg, err := digest.Parse(filepath.Base(filepath.Dir(p)) + ":" + filepath.Base(p)); err == nil {
+				id = u.dig(dg)
+			}
+		} else {
+			for i, n := range fileNames {
+				if filepath.Clean(n) == filepath.ToSlash(rel) {
+					id = i + 1
+					break
+				}
+			}
+		}
+		l = append(l, fmt.Sprintf("%d=%d,%d", id, u.dig(digest.FromBytes(b)), len(b)))
+		return nil
+	})
+	sort.Strings(l)
+	return "K:" + strings.Join(l, ";")
+}
 var ctx = context.Background()
 
 // ---------- identities shared with the model ----------
@@ -354,6 +401,7 @@ func newStore(kind string) (target, func()) {
 		if err != nil {
 			panic(err)
 		}
+		storeDir = dir
 		s, err := oci.New(dir)
 		if err != nil {
 			panic(err)
@@ -367,6 +415,7 @@ func newStore(kind string) (target, func()) {
 		if err != nil {
 			panic(err)
 		}
+		storeDir = dir
 		s, err := file.New(dir)
 		if err != nil {
 			panic(err)
@@ -417,7 +466,42 @@ type result struct {
 	tagsAfter []string // Tags(last) for the last of the operation
 }
 
+// ---------- watchdog: no case may hang ----------
+// Every operation marks progress; the history in flight registers how to replay itself.  A store
+// that wedges (lock bug, lost wake-up) stops the marks: after wedgeAfter the watchdog turns the
+// wedge into an oracle failure with that replay and ends the run.
+var (
+	lastProgress atomic.Int64
+	inFlight     atomic.Value // *histSpec
+	wedgeAfter   = 25 * time.Second
+)
+
+func progress() { lastProgress.Store(time.Now().UnixNano()) }
+
+func startWatchdog() {
+	progress()
+	go func() {
+		for {
+			time.Sleep(time.Second)
+			if time.Since(time.Unix(0, lastProgress.Load())) < wedgeAfter {
+				continue
+			}
+			h, _ := inFlight.Load().(*histSpec)
+			rep := map[string]any{"note": "no history in flight"}
+			kind := "?"
+			if h != nil {
+				kind = h.Kind
+				rep = map[string]any{"store": h.Kind, "mode": h.Mode, "hseed": h.HSeed, "nops": h.NOps, "threads": h.Thr}
+			}
+			run.OracleFail(run.NewID(), "wedged", fmt.Sprintf("store=%s: no operation completed for %s (a store operation hangs)", kind, wedgeAfter), rep)
+			run.Finish()
+			os.Exit(0)
+		}
+	}()
+}
+
 func (u *universe) apply(t target, o Op) result {
+	defer progress()
 	switch o.K {
 	case "P":
 		err := t.Push(ctx, u.descOf(o), bytes.NewReader(u.payload(o)))
@@ -891,6 +975,11 @@ func (r *reference) judge(o Op, res result) *failure {
 			if !errors.Is(res.err, errdef.ErrMissingReference) {
 				return fail("tag-empty", "tag with empty reference: %s", res.tok)
 			}
+		case r.kind == "oci" && isDigestRef(u, o.Ref) && o.Ref != string(d.Digest):
+			run.Count("oci/pattern/tag-foreign-digest")
+			if !errors.Is(res.err, errdef.ErrInvalidReference) {
+				return fail("tag-foreign-digest", "tag %s with the digest string of other content: %s, want invalid-reference", o, res.tok)
+			}
 		case !present:
 			if !errors.Is(res.err, errdef.ErrNotFound) {
 				return fail("tag-absent", "tag of absent content %s: %s, want not-found", o, res.tok)
@@ -1150,7 +1239,10 @@ func genOp(r *common.Rand, u *universe, kind string, h *hint) Op {
 		case x == 0:
 			o.Ref = ""
 		case x <= 2:
-			o.Ref = string(u.g.Nodes[node].Desc.Digest) // its own digest string, never another node's
+			o.Ref = string(u.g.Nodes[node].Desc.Digest) // its own digest string
+		case x == 3 && kind == "oci":
+			// another node's digest string: Store.Tag must refuse it (a digest addresses content)
+			o.Ref = string(u.g.Nodes[r.Intn(n)].Desc.Digest)
 		default:
 			o.Ref = common.Pick(r, u.refs)
 			if len(h.tagged) > 0 && r.Chance(1, 2) {
@@ -1224,6 +1316,9 @@ type histSpec struct {
 // ---------- sequential histories ----------
 
 func seqHistory(h histSpec) {
+	hh := h
+	inFlight.Store(&hh)
+	progress()
 	ociAutoSave = h.HSeed%3 != 0
 	if h.Kind == "oci" {
 		run.Count(fmt.Sprintf("oci/AutoSaveIndex=%v", ociAutoSave))
@@ -1314,6 +1409,13 @@ func seqHistory(h histSpec) {
 	for _, p := range probe {
 		exec(p, len(ops))
 	}
+	if h.Kind != "mem" && !tainted {
+		// on-disk observable: the files below the store directory are the ones the model expects
+		// (no left-over partial or temp file, no missing file, bytes of the right digest)
+		toks = append(toks, "K")
+		outs = append(outs, u.diskTok(h.Kind))
+		run.Count(h.Kind + "/disk-compared")
+	}
 	canon := h.Kind + " " + strings.Join(toks[:len(ops)], " ")
 	run.Case(id, "seq "+h.Kind+" "+strings.Join(toks, " ")+fmt.Sprintf(" #%s:seq:%d:%d", h.Kind, h.HSeed, h.NOps), strings.Join(outs, "|"))
 	run.Nontrivial(canon)
@@ -1329,6 +1431,9 @@ type event struct {
 }
 
 func concHistory(h histSpec) {
+	hh := h
+	inFlight.Store(&hh)
+	progress()
 	r := common.NewRand(h.HSeed)
 	u := genUniverse(r, h.Kind, true)
 	threads := make([][]Op, h.Thr)
@@ -1463,7 +1568,13 @@ func concHistory(h histSpec) {
 			report("conc-final-lost", "content pushed successfully, never deleted, absent at quiescence: "+k)
 		}
 	}
-	run.Case(id, fmt.Sprintf("lin %s %d %s %s #%s:conc:%d:%d:%d", h.Kind, len(probe), strings.Join(toks, " "), strings.Join(ptoks, " "),
+	diskTok := ""
+	if h.Kind != "mem" {
+		// on-disk observable at quiescence: the order found must end with exactly these files
+		diskTok = " K=" + strings.TrimPrefix(u.diskTok(h.Kind), "K:")
+		run.Count("conc-" + h.Kind + "/disk-compared")
+	}
+	run.Case(id, fmt.Sprintf("lin %s %d %s %s%s #%s:conc:%d:%d:%d", h.Kind, len(probe), strings.Join(toks, " "), strings.Join(ptoks, " "), diskTok,
 		h.Kind, h.HSeed, h.NOps, h.Thr), "LIN ok")
 	run.Nontrivial("conc " + h.Kind + " " + strings.Join(toks, " "))
 	if run.Rand.Chance(1, 20) {
@@ -1510,6 +1621,9 @@ func (gr *gatedReader) Read(p []byte) (int, error) {
 // held back until every one of them is inside Push.  Exactly one push may succeed on the
 // stores whose commit is an atomic LoadOrStore (memory store, file-store fallback).
 func raceRound(h histSpec) {
+	hh := h
+	inFlight.Store(&hh)
+	progress()
 	r := common.NewRand(h.HSeed)
 	u := genUniverse(r, h.Kind, true)
 	t, cleanup := newStore(h.Kind)
@@ -1542,6 +1656,7 @@ func raceRound(h histSpec) {
 				defer wg.Done()
 				inv := int(clock.Add(1))
 				err := t.Push(ctx, u.descOf(o), &gatedReader{r: bytes.NewReader(u.payload(o)), g: g})
+				progress()
 				resp := int(clock.Add(1))
 				evs[k] = event{k, inv, resp, o, result{tok: errTok(err), err: err}}
 			}(k)
@@ -1586,9 +1701,80 @@ func min(a, b int) int {
 	return b
 }
 
+// titledRestoreRounds: a directed concurrent scenario on the file store WITH a titled successor.
+// Goroutine A pushes a manifest M under the name "dir/f2.bin" whose layer entry is titled "f1.txt";
+// goroutine B pushes M again under the same name and, once that is refused with duplicate-name
+// (M's store step is over), pushes the layer.  Push = store ; graph.Index ; restoreDuplicates:
+// when A's restore step runs after B's layer push, "f1.txt" is created -- a quiescent state no
+// sequential order of the three operations reaches (whichever manifest push comes first is
+// stored while the layer is absent; the other one is refused and restores nothing).
+func titledRestoreRounds(h histSpec) {
+	hh := h
+	inFlight.Store(&hh)
+	r := common.NewRand(h.HSeed)
+	for round := 0; round < h.NOps; round++ {
+		progress()
+		layer := []byte(fmt.Sprintf("layer-%d-%d", h.HSeed, r.Intn(1<<30)))
+		ld := ocispec.Descriptor{MediaType: ocispec.MediaTypeImageLayer, Digest: digest.FromBytes(layer), Size: int64(len(layer))}
+		titled := ld
+		titled.Annotations = map[string]string{ocispec.AnnotationTitle: "f1.txt"}
+		cfg := []byte("{}")
+		cd := ocispec.Descriptor{MediaType: ocispec.MediaTypeImageConfig, Digest: digest.FromBytes(cfg), Size: int64(len(cfg))}
+		mb, _ := json.Marshal(ocispec.Manifest{MediaType: ocispec.MediaTypeImageManifest, Config: cd, Layers: []ocispec.Descriptor{titled}})
+		md := ocispec.Descriptor{MediaType: ocispec.MediaTypeImageManifest, Digest: digest.FromBytes(mb), Size: int64(len(mb)),
+			Annotations: map[string]string{ocispec.AnnotationTitle: "dir/f2.bin"}}
+		md2 := md
+		md2.Annotations = map[string]string{ocispec.AnnotationTitle: "dir/f2.bin", "x": "y"}
+		t, cleanup := newStore("file00")
+		var errA, errB1, errB2 error
+		pushedLayer := false
+		var wg sync.WaitGroup
+		start := make(chan struct{})
+		wg.Add(2)
+		go func() {
+			defer wg.Done()
+			defer progress()
+			<-start
+			errA = t.Push(ctx, md, bytes.NewReader(mb))
+		}()
+		go func() {
+			defer wg.Done()
+			defer progress()
+			<-start
+			for i := 0; i < 1000; i++ {
+				errB1 = t.Push(ctx, md2, bytes.NewReader(mb))
+				if errB1 == nil || errors.Is(errB1, file.ErrDuplicateName) {
+					break
+				}
+			}
+			if errors.Is(errB1, file.ErrDuplicateName) {
+				errB2 = t.Push(ctx, ld, bytes.NewReader(layer))
+				pushedLayer = true
+			}
+		}()
+		close(start)
+		wg.Wait()
+		restored, _ := t.Exists(ctx, titled)
+		run.Count("file00/titled-restore-round")
+		if errA == nil && pushedLayer && errB2 == nil {
+			run.Count("file00/titled-restore-round/A-first")
+			if restored {
+				id := run.NewID()
+				run.OracleFail(id, "file-conc-titled-restore-not-serialisable",
+					fmt.Sprintf("store=file00 concurrent: Push(manifest as dir/f2.bin) => nil || Push(same manifest as dir/f2.bin) => duplicate name ; Push(layer) => nil : at quiescence the layer's title f1.txt exists (restored by the first push from the layer pushed after it was stored) -- no sequential order of the three pushes creates it"),
+					map[string]any{"store": "file00", "mode": "titledrace", "hseed": h.HSeed, "nops": 4000, "threads": 2})
+				cleanup()
+				return // once per call
+			}
+		}
+		cleanup()
+	}
+}
+
 func main() {
 	run = common.Start("C06")
 	defer run.Finish()
+	startWatchdog()
 	run.Rule = "distinct operation histories (store kind + operation tokens); every history mixes pushes (valid, repeated, mismatching), tags, re-tags, resolves, missing content and empty references"
 	if run.Replay != "" {
 		for _, c := range common.ReadReplay(run.Replay) {
@@ -1601,7 +1787,9 @@ func main() {
 			if h.Kind == "" || h.NOps == 0 {
 				continue
 			}
-			if h.Mode == "race" {
+			if h.Mode == "titledrace" {
+				titledRestoreRounds(h)
+			} else if h.Mode == "race" {
 				if h.Thr == 0 {
 					h.Thr = 2
 				}
@@ -1642,14 +1830,19 @@ func main() {
 			concHistory(histSpec{Kind: kind, Mode: "conc", HSeed: run.Rand.U64() >> 12, NOps: 6 + run.Rand.Intn(6), Thr: thr})
 		}
 	}
+	for i := 0; i < run.Scale(4, 20); i++ {
+		titledRestoreRounds(histSpec{Kind: "file00", Mode: "titledrace", HSeed: run.Rand.U64() >> 12, NOps: 150, Thr: 2})
+	}
 	// coverage floors: a run in which a stream or a pattern the check relies on did not occur is a
 	// failure of the run (layer R), not a silent pass
 	floors := map[string]int{
 		"mem/P/ok": 100, "oci/P/ok": 100, "file00/P/ok": 100, "file01/P/ok": 100, "file10/P/ok": 20, "file11/P/ok": 20,
-		"oci/D/ok": 20, "oci/U/ok": 5, "oci/L/L": 20, "oci/pattern/delete-after-retag": 5, "oci/pattern/tags-last": 10,
+		"oci/D/ok": 20, "oci/U/ok": 5, "oci/L/L": 20, "oci/pattern/delete-after-retag": 5, "oci/pattern/tags-last": 10, "oci/pattern/tag-foreign-digest": 5,
 		"oci/AutoSaveIndex=false": 20, "oci/AutoSaveIndex=true": 20,
 		"file/pattern/restore-fails-traversal": 3, "file/alias-tainted-histories": 5,
 		"race-mem/successes=1": 20, "race-file00/successes=1": 20, "conc-mem/P": 50, "conc-oci/P": 50, "conc-file00/P": 50,
+		"file00/titled-restore-round": 4, "oci/disk-compared": 100, "file00/disk-compared": 100, "file01/disk-compared": 100,
+		"conc-mem/F": 50, "conc-oci/F": 50, "conc-oci/E": 5, "conc-oci/R": 50, "conc-file00/F": 30, "conc-file00/R": 50,
 		"mem/R/D": 50, "oci/R/D": 50, "file00/R/D": 20,
 	}
 	var missing []string
